@@ -693,6 +693,7 @@ func validateFieldMapping(predecessorType reflect.Type, successorType reflect.Ty
 	)
 
 	for _, mapping := range mappings {
+		mapping := mapping // the run-time checkers below must see this iteration's mapping
 		predecessorFieldType, predecessorIntermediateInterface, err = checkAndExtractFieldType(splitFieldPath(mapping.from), predecessorType)
 		if err != nil {
 			return nil, fmt.Errorf("static check failed for mapping %s: %w", mapping, err)
@@ -709,6 +710,8 @@ func validateFieldMapping(predecessorType reflect.Type, successorType reflect.Ty
 			}
 			return nil, fmt.Errorf("static check failed for mapping %s, the successor has intermediate interface type %v", mapping, successorFieldType)
 		}
+
+		successorFieldType := successorFieldType // ... and this iteration's target type
 
 		if predecessorIntermediateInterface {
 			checker := func(a any) (any, error) {
@@ -778,7 +781,14 @@ func validateFieldMapping(predecessorType reflect.Type, successorType reflect.Ty
 	return &handlerPair{
 		invoke: checker,
 		transform: func(input streamReader) streamReader {
-			return packStreamReader(schema.StreamReaderWithConvert(input.toAnyStreamReader(), checker))
+			// keep the chunk type map[string]any: the stages after this checker expect a stream of mapped fields
+			return packStreamReader(schema.StreamReaderWithConvert(input.toAnyStreamReader(), func(value any) (map[string]any, error) {
+				checked, e := checker(value)
+				if e != nil {
+					return nil, e
+				}
+				return checked.(map[string]any), nil
+			}))
 		},
 	}, nil
 }
